@@ -39,6 +39,10 @@ impl OptionSet {
     { unimplemented!() }
     pub uninterp spec fn get_spec(&self, option: ShellOption) -> State;
 }
+impl vstd::std_specs::cmp::PartialEqSpecImpl for AndOr {
+    open spec fn obeys_eq_spec() -> bool { true }
+    open spec fn eq_spec(&self, other: &AndOr) -> bool { *self == *other }
+}
 impl vstd::std_specs::cmp::PartialEqSpecImpl for State {
     open spec fn obeys_eq_spec() -> bool { true }
     open spec fn eq_spec(&self, other: &State) -> bool { *self == *other }
